@@ -179,3 +179,21 @@ Proof.
     + intros a Ha. apply E. apply (H2 a Ha).
     + intros b Hb. apply E. apply (H3 b Hb).
 Qed.
+
+(* ---------- GMRF above MAX_DIM_INV: the logdet of the regularised precision P + delta I carries ln delta once per null direction;
+   dividing the determinant by delta^k (fixes/C04_gmrf_large_logdet.diff) shifts the log-density by -(k/2) ln delta (about +9 per
+   null direction for delta = 2^-26): the unrepaired value is too small by exactly that, whatever x ---------- *)
+Local Open Scope R_scope.
+Lemma ln_pow_nat d k : 0 < d -> ln (d ^ k) = INR k * ln d.
+Proof.
+  intros Hd. induction k as [|k IH]; [cbn; rewrite ln_1; lra|].
+  rewrite <- tech_pow_Rmult, ln_mult by (try apply pow_lt; assumption). rewrite IH, S_INR. lra.
+Qed.
+
+Theorem gmrf_large_shift rank prec detarg delta k dd : 0 < detarg -> 0 < delta ->
+  gmrf_logpdf rank prec (detarg / delta ^ k) dd = gmrf_logpdf rank prec detarg dd - / 2 * INR k * ln delta.
+Proof.
+  intros Hd Hdl. unfold gmrf_logpdf. unfold Rdiv at 1.
+  rewrite (ln_mult detarg (/ delta ^ k)); [| exact Hd | apply Rinv_0_lt_compat; apply pow_lt; exact Hdl].
+  rewrite ln_Rinv by (apply pow_lt; exact Hdl). rewrite ln_pow_nat by exact Hdl. lra.
+Qed.
